@@ -177,6 +177,11 @@ SStep(m, e) ==
     [] e.e = "Kill" -> KillStep(m, e)
     [] e.e = "CbB" -> IF e.k = "sig" THEN SigCb(m, e) ELSE IF e.k = "wait" THEN WaitCb(m, e)
                       ELSE [m EXCEPT !.sinceReap = FALSE]
+    [] e.e = "Wiring" ->
+         (* C19: type r: the descriptor is the child's stdout, its stdin and stderr are
+            the null device; type w: the descriptor is its stdin, stdout and stderr null *)
+         Chk(m, TRUE, IF e.type = "r" THEN e.fd0 = "null" /\ e.fd1 = "pipe" /\ e.fd2 = "null"
+                      ELSE e.fd0 = "pipe" /\ e.fd1 = "null" /\ e.fd2 = "null", "C19:wiring")
     [] e.e = "Qui" -> SQuiesce(m)
     [] e.e = "End" -> SEnd(m, e)
     [] OTHER -> m
